@@ -26,8 +26,7 @@ Two things are checked here.
    with the spelling the module's own import block gives that use (computed per (module, use) from the Imports object
    of THAT module).  The history (module, cell, spelling) is run through the Lean model (driver `cell.run`): the model
    answers with the first cell used by two modules and with what every use reads after all writes.  On the unchanged
-   tree no cell is shared (then `SharedCell.render_eq_spelling` applies: every use reads its own spelling) and what
-   the model reads is what the real objects hold after the run; a shared cell is a broken correspondence
+   tree no cell is shared (then Props/C12 `render_eq_spelling_partial` applies: every use reads its own spelling); a shared cell is a broken correspondence
    (ck.disagree -> failing-input search below), and the oracles of (1) decide whether the output is wrong.
 """
 from __future__ import annotations
@@ -128,7 +127,8 @@ def family_case(layout: str, shapes: tuple, inside: bool, opts: dict, model: str
         defs[middle] = []
         bases[middle] = base
         parent = middle
-    defs[child] = list(used)
+    # `required` inside the second allOf item names members the item does not declare: nothing is re-declared (control)
+    defs[child] = [] if inside else list(used)
     bases[child] = parent
     shared = {"members": {base: members}, "required_only": {child: {"names": [m["name"] for m in members], "inside": inside}}}
     if own_member:
@@ -140,7 +140,7 @@ def family_case(layout: str, shapes: tuple, inside: bool, opts: dict, model: str
         defs[other] = list(used)
         bases[other] = parent
         shared["required_only"][other] = {"names": [m["name"] for m in members][:1], "inside": inside}
-        defs[other] = sorted({r for m in members[:1] for r in m["refs"]})
+        defs[other] = [] if inside else sorted({r for m in members[:1] for r in m["refs"]})
     fam = f"required_only:{layout}:{'+'.join(shapes)}:{'inside' if inside else 'beside'}" + (":own" if own_member else "") + (":mid" if mid else "") + (":two_children" if second_child else "")
     return {"defs": defs, "bases": bases, "opts": dict(opts), "model": model, "shared": shared, "family": fam}
 
@@ -200,4 +200,137 @@ def campaign_family(ck: Check, n_random: int) -> None:
             camp.hit("shape:" + s)
     c12.check_cases(ck, camp, cases, pending)
     c12.flush_imports(ck, camp, pending)
+    camp.wall_s = time.time() - t0
+
+
+# ---------------------------------------------------------------- data-type objects by identity vs Model/SharedCell
+CELLS: list = []  # per observed call of Parser.__change_from_import: (module path, [(object, reference path, spelling)])
+_CELLS_BROKEN: list = []
+
+
+def install_cell_recorder() -> None:
+    """Observe the real Parser.__change_from_import from outside (on top of c12.install_recorder): after each call, the
+    data-type objects with a cross-module reference reachable from the models of the module — the OBJECTS, kept alive
+    until the case is judged — and the spelling the import block of THIS module gives each use, computed the way the
+    method does from the Import filed under the reference's path: plain (None) when the import's name is the class
+    name, else the alias / `alias.Class`. Nothing is changed in the objects."""
+    import functools
+    import inspect
+
+    from datamodel_code_generator.parser import base as pb
+
+    orig = getattr(pb.Parser, "_Parser__change_from_import", None)
+    if orig is None:
+        if not _CELLS_BROKEN:
+            _CELLS_BROKEN.append("Parser.__change_from_import is gone")
+        return
+    if getattr(orig, "_c12_cells", False):
+        return
+
+    @functools.wraps(orig)  # inspect.signature of the wrapper is the method's own (c12.install_recorder binds by name)
+    def wrapper(self, *args, **kwargs):
+        out = orig(self, *args, **kwargs)
+        try:
+            bound = inspect.signature(orig).bind(self, *args, **kwargs).arguments
+            if "models" not in bound:  # wrapped over another observer that takes (*args, **kwargs)
+                bound = dict(zip(("models", "imports"), args), **kwargs)
+            models, imports = bound["models"], bound["imports"]
+            uses = []
+            for model in models:
+                for dt in model.all_data_types:
+                    ref = dt.reference
+                    if not ref or ref.source in models:
+                        continue
+                    imp = imports.reference_paths.get(ref.path)
+                    if imp is None:
+                        uses.append((dt, ref.path, "?"))
+                        continue
+                    name, alias = ref.short_name, imp.alias or imp.import_
+                    spelling = None if alias == name else (alias if name == imp.import_ else f"{alias}.{name}")
+                    uses.append((dt, ref.path, spelling))
+            if models:
+                CELLS.append((tuple(models[0].module_path), uses))
+        except (KeyError, TypeError, AttributeError) as e:
+            if not _CELLS_BROKEN:
+                _CELLS_BROKEN.append(f"observing Parser.__change_from_import: {type(e).__name__}: {e}")
+        return out
+
+    wrapper._c12_cells = True
+    pb.Parser._Parser__change_from_import = wrapper
+
+
+def check_cells_co(ck: Check, camp, case: dict, cells: list):
+    """the recorded (module, object, spelling) history of one generate() vs Model/SharedCell (driver `cell.run`):
+    no object in two modules (the hypothesis of Props/C12 render_eq_spelling_partial)"""
+    if _CELLS_BROKEN and not getattr(ck, "_c12_cells_reported", False):
+        ck._c12_cells_reported = True
+        ck.disagree(camp, {"real_call": "Parser.__change_from_import(models, imports, scoped_model_resolver, init)"},
+                    "the method exists, with models whose all_data_types carry references and an Imports object with reference_paths", _CELLS_BROKEN[0])
+    mods: list = []
+    ids: dict[int, int] = {}
+    hist = []
+    for mod, uses in cells:
+        if mod not in mods:
+            mods.append(mod)
+        for dt, path, sp in uses:
+            if sp == "?":
+                camp.hit("cells:use_without_filed_import")
+                continue
+            hist.append((mods.index(mod), ids.setdefault(id(dt), len(ids)), sp, dt, path))
+    if not hist:
+        return
+    (rep,) = yield ["cell.run (" + " ".join(f"({m} {c} {'-' if sp is None else hx(sp)})" for m, c, sp, _, _ in hist) + ")"]
+    if not rep.startswith("ok "):
+        ck.infra_errors.append(f"driver reply {rep[:80]!r} for cell.run")
+        return
+    from ..common import unhx
+
+    unshared, coherent, rest = rep[3:].split(" ", 2)
+    camp.hit("cells:histories")
+    camp.hit("cells:uses", len(hist))
+    if len({sp for _, _, sp, _, _ in hist if sp is not None}) and any(sp is None for _, _, sp, _, _ in hist):
+        camp.hit("cells:plain_and_qualified_spellings_in_one_run")
+    if unshared != "1":
+        camp.hit("cells:SHARED_BETWEEN_MODULES")
+        by_cell: dict[int, list] = {}
+        for m, c, sp, _, path in hist:
+            by_cell.setdefault(c, []).append((".".join(mods[m]) or "<root>", path, sp))
+        bad = next(v for v in by_cell.values() if len({x[0] for x in v}) > 1)
+        ck.disagree(camp, {"what": "one DataType object with a cross-module reference is reachable from models of two modules (object identity, seen after Parser.__change_from_import)", "case": case},
+                    "unshared (Model/SharedCell): every such object belongs to one module, so each use reads the spelling of its own module (Props/C12 render_eq_spelling_partial)",
+                    f"reference {bad[0][1]}: " + "; ".join(f"module {m} spells {sp or 'the plain class name'}" for m, _, sp in bad))
+        return
+    camp.hit("cells:unshared")
+    if coherent != "1":
+        camp.hit("cells:one_object_two_spellings_in_one_module")
+        return
+    # What every object holds after the run is NOT compared with what the model reads: the spelling of a use is rebuilt
+    # here from the LAST import the module filed for the reference (one class used as base and as member files two), and
+    # later passes (__collapse_root_models, __reuse_model, __change_imported_model_name) write aliases of their own.
+    # Counted only; the property's oracles judge the written text.
+    reads = rest.strip()[1:-1].split(" ")
+    for (m, c, sp, dt, path), r in zip(hist, reads):
+        if (None if r == "-" else unhx(r)) != getattr(dt, "alias", None):
+            camp.hit("cells:final_alias_differs_from_last_filed_import(not_judged)")
+            break
+
+
+def search_family(ck: Check) -> None:
+    """failing-input search (runs only when an obligation or a correspondence broke, e.g. an object found shared between
+    modules): the complete block of the thorough tier — every layout in which the two modules spell the class
+    differently, both processing orders, every member shape — judged by the property's own oracles on the real generator"""
+    from . import c12
+
+    camp = ck.campaign("search: child re-declares inherited members through `required` only, across modules (complete block)")
+    t0 = time.time()
+    pending: list = []
+    it = small_block(False)
+    while True:
+        chunk = list(itertools.islice(it, 96))
+        if not chunk:
+            break
+        c12.check_cases(ck, camp, chunk, pending)
+        c12.flush_imports(ck, camp, pending)
+        if ck.failures or time.time() - t0 > (90 if ck.tier == "quick" else 600):
+            break
     camp.wall_s = time.time() - t0
